@@ -213,6 +213,9 @@ class VFSZip(VFS_Real):
         while len(symlinkinodes) and len(symlinkinodes) != lastsymlinklen:
             lastsymlinklen = len(symlinkinodes)
             newsymlinkinodes = []
+            # Negative lookups remembered during the previous pass may have
+            # become resolvable since (the index grows while links resolve).
+            self.invalid_paths.clear()
             for item in symlinkinodes:
                 if item["dest"][0] == "/":
                     dest = item["dest"][1:]
@@ -224,6 +227,7 @@ class VFSZip(VFS_Real):
                 else:
                     newsymlinkinodes.append(item)
             symlinkinodes = newsymlinkinodes
+        self.invalid_paths.clear()
 
     def _islinkinfo(self, info: zipfile.ZipInfo) -> bool:
         return stat.S_ISLNK(info.external_attr >> 16)
